@@ -21,12 +21,12 @@ type Clause struct {
 	WhereDefined bool
 	// Must: a callpre that has to apply at one call site at least (the call carries the property; if a
 	// refactoring moves it out of this function the contract no longer constrains it)
-	Must bool
-	sites        int
-	Assumed      bool // summary: assumed by callers, not verified in the body
-	Loc          string // assertat: substring of the source line
-	Nth          int    // assertat: which matching line of the function (1-based; 0 = every one)
-	skipped      string
+	Must    bool
+	sites   int
+	Assumed bool   // summary: assumed by callers, not verified in the body
+	Loc     string // assertat: substring of the source line
+	Nth     int    // assertat: which matching line of the function (1-based; 0 = every one)
+	skipped string
 }
 
 type LoopContract struct {
@@ -43,40 +43,40 @@ type ParamContract struct {
 }
 
 type FuncContract struct {
-	Key        string
-	PkgName    string
-	Requires   []*Clause
-	Ensures    []*Clause
-	EnsuresP   []*Clause // ensures on panic exits
-	CallPre    map[string][]*Clause // obligations on the arguments of calls made by this function, keyed by callee
-	DynMod     []*Clause            // assumed frame of dynamic calls in this function
-	HasDynMod  bool
-	UnknownLikeDyn bool // calls without a contract are assumed to respect the dyncall frame
-	SendPre    []*Clause // obligations on every channel send of the function (`ch` = the channel)
-	LitPred    string    // spec predicate assumed of every string literal of the function body (e.g. safe)
-	NoMonitor  bool      // exempt from re-establishing monitor invariants (configuration-time function)
-	AssertAt   []*Clause // ghost assertions placed before the statement on a named source line (Loc, Nth)
-	AtUnlock   []*Clause // assertions checked at every Unlock of the function (may mention locals and atlock())
-	Checks     []*Clause // internal postconditions (may mention locals; not exported to callers)
-	Functional bool
-	Modifies   []*Clause
-	HasMod     bool
-	Pure       bool
-	Trusted    bool
-	Strict     bool
-	MathInt    bool
-	MayPanic   bool
-	HoldsLock  bool // opt-out of the lock discipline: the function is entered or left with one of its own locks held
-	CloseOnce  bool
-	NoBody     bool
-	Loops      map[int]*LoopContract
-	Params     map[string]*ParamContract
-	AllocBound *Clause
-	RecDecreases *Clause // variant of direct recursion: 0 <= E(args) < E(params) at every self call
-	Locks      []string
-	File       string
-	Line       int
-	Used       bool
+	Key            string
+	PkgName        string
+	Requires       []*Clause
+	Ensures        []*Clause
+	EnsuresP       []*Clause            // ensures on panic exits
+	CallPre        map[string][]*Clause // obligations on the arguments of calls made by this function, keyed by callee
+	DynMod         []*Clause            // assumed frame of dynamic calls in this function
+	HasDynMod      bool
+	UnknownLikeDyn bool      // calls without a contract are assumed to respect the dyncall frame
+	SendPre        []*Clause // obligations on every channel send of the function (`ch` = the channel)
+	LitPred        string    // spec predicate assumed of every string literal of the function body (e.g. safe)
+	NoMonitor      bool      // exempt from re-establishing monitor invariants (configuration-time function)
+	AssertAt       []*Clause // ghost assertions placed before the statement on a named source line (Loc, Nth)
+	AtUnlock       []*Clause // assertions checked at every Unlock of the function (may mention locals and atlock())
+	Checks         []*Clause // internal postconditions (may mention locals; not exported to callers)
+	Functional     bool
+	Modifies       []*Clause
+	HasMod         bool
+	Pure           bool
+	Trusted        bool
+	Strict         bool
+	MathInt        bool
+	MayPanic       bool
+	HoldsLock      bool // opt-out of the lock discipline: the function is entered or left with one of its own locks held
+	CloseOnce      bool
+	NoBody         bool
+	Loops          map[int]*LoopContract
+	Params         map[string]*ParamContract
+	AllocBound     *Clause
+	RecDecreases   *Clause // variant of direct recursion: 0 <= E(args) < E(params) at every self call
+	Locks          []string
+	File           string
+	Line           int
+	Used           bool
 }
 
 type SpecFunc struct {
@@ -111,7 +111,7 @@ type Monitor struct {
 	Inv     *Clause
 	Also    []string // "Type.field" of other structs protected by this lock (the lock owner is found among the function's parameters)
 	Closes  []string // channel fields whose closed/open status is protected by this lock (the field itself never changes)
-	Owner   string // function key of the single writer goroutine: its own reads need no lock
+	Owner   string   // function key of the single writer goroutine: its own reads need no lock
 	File    string
 }
 
